@@ -252,6 +252,97 @@ def r08_4(run):
                    "an array can be yielded before its base: views would be asked to unlock while the base is locked")
 
 
+def r08_4b(run):
+    """every not-yet-seen array is yielded, preceded by its (not-yet-seen) base -- no extra condition may suppress a yield"""
+    fi = anchor_func(run, f"{LOCKMOD}.unique_arrs_and_bases")
+    loops = [n for n in own_nodes(fi.node) if isinstance(n, ast.For)]
+    if not loops:
+        raise AnalysisError(f"{fi.short}: loop not found")
+    ys = [n for n in own_nodes(fi.node) if isinstance(n, ast.Yield) and n.value is not None]
+    base_y = [y for y in ys if isinstance(y.value, ast.Attribute) and y.value.attr == "base"]
+    arr_y = [y for y in ys if y not in base_y]
+    if not base_y or not arr_y:
+        raise AnalysisError(f"{fi.short}: yields not found")
+    arr = norm(arr_y[0].value)
+    # names of the id-locals
+    ids = {}
+    for n in own_nodes(fi.node):
+        if isinstance(n, ast.Assign) and isinstance(n.value, ast.Call) and dotted(n.value.func) == "id" and assigned_name(n):
+            ids[norm(n.value.args[0])] = assigned_name(n)
+    seen = None
+    for n in own_nodes(fi.node):
+        if isinstance(n, ast.Assign) and isinstance(n.value, ast.Call) and dotted(n.value.func) == "set" and assigned_name(n):
+            seen = assigned_name(n)
+    if seen is None or arr not in ids or f"{arr}.base" not in ids:
+        raise AnalysisError(f"{fi.short}: cannot identify the seen-set / id locals")
+    assume = {f"{ids[arr]} not in {seen}": True, f"{arr}.base is not None": True, f"{ids[arr + '.base']} not in {seen}": True}
+    cfg = build_cfg(run, fi, assume)
+    head = cfg.node_for(loops[0])
+    for label, yl in (("base", base_y), ("array", arr_y)):
+        ns = {cfg.stmt_node_containing(y) for y in yl}
+        ns.discard(None)
+        ok, wit = True, None
+        for succ in cfg.succ_by_kind(head, "loop"):
+            w = cfg.all_paths_hit(succ, ns, exits=(head, EXIT)) if ns else [succ, head]
+            if w is not None:
+                ok, wit = False, w
+        run.ob("R08.4", loc(fi, yl[0]), fi.short, f"an unseen {label} is always yielded (no further condition)", ok,
+               f"under {sorted(assume)} every iteration passes the yield" if ok else
+               f"an array's {label} can be skipped although it was not yielded before: it stays writeable inside a live graph",
+               path=cfg.path_text(wit) if wit else None)
+
+
+def r08_7(run):
+    """typestate of the three maps: waiting views live in _array_tracker, so the waiting set may only be wiped when the tracker is empty"""
+    relf = anchor_func(run, f"{LOCKMOD}._release_lock_on_arr_writeability")
+    cfg = build_cfg(run, relf)
+    clears = [c for c in calls_named(relf.node, "clear") if dotted(c.func.value) == "_views_waiting_for_unlock"]
+    tests = [n for n, s in cfg.stmt.items() if cfg.label[n] == "If"]
+    for c in clears:
+        nc = cfg.stmt_node_containing(c)
+        ok = False
+        for t in tests:
+            txt = norm(cfg.stmt[t])
+            conj = [x.strip() for x in txt.split(" and ")]
+            if "not _array_tracker" in conj and cfg.edge_dominates(t, "true", nc):
+                ok = True
+        run.ob("R08.7", loc(relf, c), relf.short, "_views_waiting_for_unlock.clear() only when _array_tracker is empty", ok,
+               "guarded by `not _array_tracker` (views waiting for their base are tracked there, not in the counter)" if ok else
+               "the set of views waiting for their base can be wiped while such views are still tracked: they stay read-only forever")
+    # pops of a waiting view from the tracker happen only in the release function
+    mod = run.project.module(LOCKMOD)
+    fx = facts(run)
+    for node in ast.walk(mod.tree):
+        if isinstance(node, ast.Call) and isinstance(node.func, ast.Attribute) and node.func.attr in ("pop", "clear") \
+                and dotted(node.func.value) == "_array_tracker":
+            fi = fx.owner_function(mod, node)
+            ok = fi is not None and fi.qualname == relf.qualname
+            run.ob("R08.7", loc(mod, node), fi.short if fi else mod.name, f"_array_tracker.{node.func.attr}(...)", ok,
+                   "tracker entries removed only by the release function" if ok else "tracker entry dropped outside the release function")
+
+
+def r08_8(run):
+    """force_lock bypasses the 'natively read-only arrays are left alone' rule: only an op's own output may be force-locked"""
+    fx = facts(run)
+    n = 0
+    for fi in run.project.all_functions():
+        for c in calls_named(fi.node, "lock_arr_writeability"):
+            fl = kw(c, "force_lock")
+            if fl is None and len(c.args) >= 2:
+                fl = c.args[1]
+            if fl is None or (isinstance(fl, ast.Constant) and not fl.value):
+                continue
+            n += 1
+            params = {a.arg for a in fi.node.args.args}
+            E = c.args[0] if c.args else None
+            ok = isinstance(E, ast.Attribute) and E.attr == "data" and isinstance(E.value, ast.Name) and E.value.id in params \
+                and not isinstance(getattr(c, "_parent", None), (ast.GeneratorExp, ast.ListComp))
+            run.ob("R08.8", loc(fi, c), fi.short, f"force-lock of {norm(E) if E is not None else '?'}", ok,
+                   "the forced lock is on the data of the function's own tensor argument (the in-place result)" if ok else
+                   "operands are force-locked: a natively read-only input gets tracked and is made *writeable* when the graph is released")
+    run.count("force_lock sites", n)
+
+
 def r08_5(run):
     """counter typestate in lock_management"""
     lockf = anchor_func(run, f"{LOCKMOD}.lock_arr_writeability")
@@ -381,7 +472,9 @@ def check(run):
              "may-raise calls included) passes release_writeability_lock_on_op(coll) or finalize(f, release, coll)", floor=3)
     run.rule("R08.2", "every lock_arr_writeability(E) in _op / force_lock_tensor_and_creators registers E in the finalized collection", floor=4)
     run.rule("R08.3", "the writeable flag is written only in lock_management or on a private copy", floor=3)
-    run.rule("R08.4", "unique_arrs_and_bases yields a base before its view", floor=1)
+    run.rule("R08.4", "unique_arrs_and_bases yields a base before its view, and every unseen array/base unconditionally", floor=3)
+    run.rule("R08.7", "the waiting-view set is wiped only when _array_tracker is empty; tracker entries are removed only by the release function", floor=2)
+    run.rule("R08.8", "force_lock=True only for an op's own output array", floor=1)
     run.rule("R08.5", "lock counter typestate: ++ only in lock, --/del only in release, writeable=True only for the last holder", floor=6)
     run.rule("R08.6", "the op's output array is locked on every tracked, guarded return", floor=1)
     r08_1(run, "TRACK_GRAPH=T,MEM_GUARD=T", dict(track=True, memguard=True))
@@ -392,7 +485,10 @@ def check(run):
     r08_2(run)
     r08_3(run)
     r08_4(run)
+    r08_4b(run)
     r08_5(run)
+    r08_7(run)
+    r08_8(run)
     r08_6(run)
     run.assume("may-raise = explicit `raise` (not `# pragma: no cover`) reachable through resolved repo calls; NumPy/builtin calls "
                "outside the guarded forward call are assumed not to raise")
